@@ -852,6 +852,30 @@ def _file_strings(ctx, reqs, pending):
             pending.append((case, ('ok', sorted(_ds_pairs(c2)))))
 
 
+# ------------------------------------------------------------------ 8. operands that are no codes
+def _foreign(ctx, objs):
+    """concept vs tuple / list / str / None / int / object(): `__eq__` leaves the code comparison (branch 1 of the regenerated
+    plan): never raises, never equal, `!=` is the negation, in both argument orders; the concept's hash is untouched"""
+    from pydicom.dataset import Dataset
+    concepts = [(d, o) for d, o in objs if d['cls'] == 'concept'][:12]
+    for d, c in concepts:
+        h0 = hash(c)
+        others = [('tuple', (d['value'], d['scheme'], d['meaning'], d['version'])), ('list', [d['value'], d['scheme'], d['meaning']]),
+                  ('str', d['value']), ('none', None), ('int', 0), ('object', object())]
+        for name, x in others:
+            st, res = _try(lambda: (c == x, c != x, x == c, x != c))
+            ctx.case(path='foreign/' + name, nontrivial_key=('foreign', name))
+            if st != 'ok' or tuple(bool(v) for v in res) != (False, True, False, True) or hash(c) != h0:
+                ctx.fail({'what': 'foreign', 'obj': d, 'other': name}, f'concept vs {name}: (==, !=, reflected ==, reflected !=) = {res!r}',
+                         site='foreign')
+        # a plain dataset with the same elements: Dataset.__eq__ compares ALL elements (meaning included) - recorded, not judged
+        ds = Dataset()
+        for el in c:
+            ds.add(el)
+        st, res = _try(lambda: (c == ds, ds == c))
+        ctx.hist('plain_dataset_same_elements', str(res) if st == 'ok' else 'raised')
+
+
 # ------------------------------------------------------------------ run
 def _compare(ctx, pending, answers):
     seen = {}
@@ -962,6 +986,7 @@ def run(ctx):
     _dict_histories(ctx, objs, alias, reqs, pending)
     _store_histories(ctx, reqs, pending)
     _file_strings(ctx, reqs, pending)
+    _foreign(ctx, objs)
     answers = ctx.model(reqs)
     if answers is None:
         return
@@ -1014,6 +1039,10 @@ def replay(ctx, case):
     if what == 'from_dataset':
         _from_dataset(sub, [], [], only=case['fd'])
         return sub.failures[:3] or None
+    if what == 'foreign':
+        objs, _, _ = _alphabet(sub, 0)
+        _foreign(sub, objs)
+        return sub.failures[:2] or None
     if what == 'dict-history':
         objs, alias, _ = _alphabet(sub, 0)
         _dict_histories(sub, objs, alias, [], [], only_idx=case['idx'])
